@@ -168,7 +168,7 @@ class Templates:
                 tok = Tok(blk, "lit", self._const_str(t["args"][-1]), stream)
             elif ci.get("trait") == "quote::to_tokens::ToTokens" and ci.get("method") == "to_tokens":
                 stream = ref_root(b, t["args"][1])
-                tok = Tok(blk, "interp", ci.get("self_ty"), stream, ty=ci.get("self_ty"), expr=self.sym.show(self.sym.operand(t["args"][0])))
+                tok = Tok(blk, "interp", tag(ci.get("self_ty")), stream, ty=tag(ci.get("self_ty")), expr=self.sym.show(self.sym.operand(t["args"][0])))
                 tok.src = ref_root(b, t["args"][0])
             elif gname.endswith("TokenStreamExt::append_all") or gname.endswith("core::iter::traits::collect::Extend<proc_macro2::TokenStream>>::extend"):
                 stream = ref_root(b, t["args"][0])
@@ -220,7 +220,7 @@ class Templates:
                             out.append("|")
                         out[-1] = "⟩"
                 else:
-                    out.append("⟨%s⟩" % (tk.ty,))
+                    out.append("⟨%s⟩" % (tag(tk.ty),))
             elif tk.kind == "append":
                 alts = self.stream_alts(tk.inner)
                 if len(alts) == 1:
@@ -275,6 +275,12 @@ class Templates:
 
     def text(self, stream):
         return " ".join(self.render(stream))
+
+
+def tag(ty):
+    """interpolated type as shown in rendered templates: reference levels are dropped, `#x` prints
+    the same tokens whether x is a T, a &T or a &&T"""
+    return (ty or "?").replace("&", "")
 
 
 def _loop_blocks(body, headers):
